@@ -42,11 +42,16 @@ HOOK_REDEFINE = {
     "pthread_mutex_lock": "vsched_mutex_lock",
     "pthread_mutex_unlock": "vsched_mutex_unlock",
     "pthread_mutex_trylock": "vsched_mutex_trylock",
+    "pthread_rwlock_rdlock": "vsched_rwlock_rdlock",
+    "pthread_rwlock_wrlock": "vsched_rwlock_wrlock",
+    "pthread_rwlock_unlock": "vsched_rwlock_unlock",
+    "pthread_rwlock_tryrdlock": "vsched_rwlock_tryrdlock",
+    "pthread_rwlock_trywrlock": "vsched_rwlock_trywrlock",
 }
 # blocking primitives the scheduler does not model: each gets its own stub that stops the run
 # with a harness error (objcopy wants distinct targets)
 for _n in (["pthread_mutex_timedlock", "pthread_mutex_clocklock"] +
-           ["pthread_rwlock_" + x for x in ("rdlock", "wrlock", "unlock", "tryrdlock", "trywrlock", "timedrdlock", "timedwrlock", "clockrdlock", "clockwrlock")] +
+           ["pthread_rwlock_" + x for x in ("timedrdlock", "timedwrlock", "clockrdlock", "clockwrlock")] +
            ["pthread_cond_" + x for x in ("wait", "timedwait", "clockwait", "signal", "broadcast")] +
            ["pthread_spin_" + x for x in ("lock", "trylock", "unlock")]):
     HOOK_REDEFINE[_n] = "vsched_unsupported_" + _n
@@ -54,7 +59,8 @@ for _n in (["pthread_mutex_timedlock", "pthread_mutex_clocklock"] +
 
 def hook_object(obj):
     """objcopy --redefine-sym: route the blocking pthread calls of an instrumented object to the scheduler."""
-    out = obj[:-2] + ".hook.o"
+    mapsig = hashlib.sha256(repr(sorted(HOOK_REDEFINE.items())).encode()).hexdigest()[:10]
+    out = obj[:-2] + "." + mapsig + ".hook.o"
     try:
         if os.stat(out).st_mtime_ns >= os.stat(obj).st_mtime_ns:
             return out
